@@ -13,6 +13,7 @@ RULE = ("case = messy structure (emphasis: isolated on-lattice atom, crystallite
         "0.4-1.0, radii covalent / vdw / custom array, seed); every returned cluster is an obligation; distinct = SHA-1 of the descriptor; non-trivial = "
         "a cluster was returned after SBC merged clusters, resolved a multiply assigned atom or removed an atom while cleaning (harness-side counters)")
 ASSUMPTIONS = [
+    "resource bound: structures whose longest periodic cell vector exceeds 60x the smallest periodic cell height (strongly sheared descriptions of a small lattice) are discarded and counted - MatID needs gigabytes for them and a memory kill is not a verdict",
     "reference value: matid.geometry.get_dimensionality(cluster.get_atoms(), bond_threshold, radii=<the radii of exactly these atoms>) - the property is a differential statement between the shortcut and the direct evaluation",
     "structures for which get_clusters raises are C01's business and are not judged here (counted)",
 ]
@@ -40,6 +41,9 @@ def run_case(desc):
     out = Outcome()
     s = messy.build(desc["structure"])
     p = desc["params"]
+    if messy.too_skewed(s):
+        out.discard = "resource-bound:strongly-sheared-cell"
+        return out
     nums = s.get_atomic_numbers()
     rarg, rad = c01.radii_for(p, nums)
     if np.isnan(rad).any():
